@@ -370,10 +370,10 @@ RttVirtual(e, pre) ==
   (pre.started /\ e.post.started /\ e.call \notin {"Start", "Reset"} /\ e.post.rttAvg # pre.rttAvg) =>
      /\ Sane(pre) /\ Sane(e.post)
      /\ pre.sentAt >= 0
-     /\ LET t == e.now - pre.sentAt
-            tt == IF pre.rttOld # 0 /\ t > 2 * pre.rttOld THEN 2 * pre.rttOld ELSE t
-            nw == pre.rttAvg + TruncDiv(tt - pre.rttOld, 70)
-        IN e.post.rttAvg = (IF nw < 0 THEN 0 ELSE nw)
+     \* the estimate moved by a sample that can only be the injected clock's reading minus the instant the proposal was sent: whatever
+     \* the smoothing is (the exact arithmetic of rtt.go is part of the conformance check, not of the property), the estimate stays
+     \* non-negative and cannot grow by more than that sample
+     /\ e.post.rttAvg >= 0 /\ e.post.rttAvg <= pre.rttAvg + (e.now - pre.sentAt)
 \* pair runs (driver "shift"): same calls, clocks differing by delta => same effects, absolute instants shifted
 ShTs(t, d) == IF t = 0 THEN 0 ELSE IF t > 2000000000 THEN (IF d = 0 THEN t ELSE -1) ELSE t + d
 RECURSIVE ShiftP(_, _)
